@@ -12,6 +12,10 @@ What is generated:
                       functions inside LALRPOP's output are private to a generated module and out
                       of the engine's reach, so this is how the *actual* action code is executed
                       symbolically.
+  statics_literal.rs  the literal match block of `literal_syn_judgment` (lang/statics/src/query.rs): the
+                      defaulting rule (Int64 / Float64 when nothing selects a type) and its range check,
+                      copied verbatim out of the salsa query, followed by
+                      harness/templates/statics_literal.tail.rs.
   dynamics_kernels.rs the bodies of the arithmetic / comparison macros and helpers of impls.rs
                       (see gen_dynamics_kernels) - only used when the entry-point harnesses of
                       impls.rs are not feasible.
@@ -177,6 +181,59 @@ def gen_surface_actions(ws, gen_dir):
     return report
 
 
+# ------------------------------------------------------------------------------------------
+# literal synthesis judgment of the type checker (query.rs)
+
+
+def _match_brace(text, open_idx):
+    """Index of the `}` matching the `{` at open_idx (strings and // comments skipped)."""
+    assert text[open_idx] == "{"
+    end = _scan_to(text, open_idx + 1, "}")
+    return end
+
+
+def gen_statics_literal(ws, gen_dir):
+    """The `let (lit, ty) = match lit { .. };` block of `literal_syn_judgment` - the rule that gives
+    an unannotated literal its default type and range-checks it - copied verbatim into an ordinary
+    function. The salsa query around it (interned term lookup, intrinsic singleton ids, derived
+    value id) is cut: `primitive_ty` becomes the identity on PrimitiveType and the early
+    `return Some(Error(..))` becomes `return Err(Error(..))`."""
+    rel = "lang/statics/src/query.rs"
+    text = open(os.path.join(ws, rel), encoding="utf-8").read()
+    fm = re.search(r"pub fn literal_syn_judgment\b", text)
+    if not fm:
+        raise Drift("query.rs: fn literal_syn_judgment not found")
+    lm = re.compile(r"let \(lit, ty\) = match lit \{").search(text, fm.end())
+    nxt = re.compile(r"\n(pub )?fn \w+").search(text, fm.end())
+    if not lm or (nxt and lm.start() > nxt.start()):
+        raise Drift("query.rs: `let (lit, ty) = match lit {` not found inside literal_syn_judgment")
+    open_idx = lm.end() - 1
+    close = _match_brace(text, open_idx)
+    if close < 0:
+        raise Drift("query.rs: unbalanced literal match block")
+    block = text[lm.start():close + 1] + ";"
+    n_ret = len(re.findall(r"return Some\(", block))
+    if n_ret < 2:
+        raise Drift(f"query.rs: expected >= 2 early error returns in the literal match block, found {n_ret}")
+    if "primitive_ty(" not in block:
+        raise Drift("query.rs: literal match block no longer goes through `primitive_ty`")
+    block = block.replace("return Some(", "return Err(")
+    out = ["// GENERATED by /verif/tools/gen.py from lang/statics/src/query.rs - do not edit.",
+           "#[allow(unused_imports, unused_variables, clippy::all)]",
+           "mod lit_syn {",
+           "    use zydeco_syntax::{FloatType, IntegerType, Literal, PrimitiveType};",
+           "    use crate::query::LiteralSynOutcome;",
+           "    pub(super) fn syn(lit: &Literal) -> Result<(Literal, PrimitiveType), LiteralSynOutcome> {",
+           "        let primitive_ty = |primitive: PrimitiveType| primitive;",
+           "        " + block,
+           "        Ok((lit, ty))",
+           "    }",
+           "}", ""]
+    out.append(open(os.path.join(TEMPLATES, "statics_literal.tail.rs"), encoding="utf-8").read())
+    write_if_changed(os.path.join(gen_dir, "statics_literal.rs"), "\n".join(out))
+    return {"source": rel, "extracted": " ".join(block.split())[:1200]}
+
+
 def generate(ws, gen_dir):
     report = {}
     try:
@@ -186,6 +243,11 @@ def generate(ws, gen_dir):
         # an empty module keeps the other harnesses of the crate compiling; properties that
         # require these harnesses turn inconclusive (plan.PROPERTIES[..]["requires_gen"])
         write_if_changed(os.path.join(gen_dir, "surface_actions.rs"), "// extraction failed: see evidence\n")
+    try:
+        report["statics_literal"] = gen_statics_literal(ws, gen_dir)
+    except Drift as e:
+        report["statics_literal"] = {"error": str(e)}
+        write_if_changed(os.path.join(gen_dir, "statics_literal.rs"), "// extraction failed: see evidence\n")
     return report
 
 
